@@ -287,6 +287,33 @@ def work_after_crash(chunk, st):
     st.sample({'after_crashed_target': [list(x) for x in chunk[:2]]}, cap=3)
 
 
+# ---- the group-exchange modulus test (-g / --gex-test) over several targets: what is listed for one target is what that target hands out
+GEXTEST_ARCHS = ['GEX1024', 'GEX4096', 'GEXFALLBACK', 'GEX2048OPENSSH', 'GEXREFUSED', 'TERR']
+GEXTEST_SPECS = ['2048', '1024,2048,4096', '2048:4096:1024']
+
+
+def work_gextest(chunk, st):
+    for first, second, spec, fmt in chunk:
+        opts = ['-n', '--gex-test=' + spec] + (['-j'] if fmt == 'json' else [])
+        res, outs = H.audit_sequence([MT.HEALTHY[first]('a'), MT.HEALTHY[second]('b')], opts=opts, hosts=['a.example', 'b.example'])
+        ref, routs = H.audit_sequence([MT.HEALTHY[second]('b')], opts=opts, hosts=['b.example'])
+        root = ('gex-test', first, second, spec, fmt)
+        st.execution(res.world, outcome=('gex-test', res.status, fmt), root=root, nontrivial=root)
+        d = {'first': first, 'second': second, 'gex_test': spec, 'fmt': fmt, 'status': res.status}
+        if res.hang or res.exc or ref.hang or ref.exc:
+            st.violation('gex-test:hang-or-exception', dict(d, hang=res.hang, exc=res.exc))
+            continue
+        if outs is None or routs is None or len(outs) != 2 or len(routs) != 1:
+            st.violation('gex-test:output-shape', dict(d, stdout=res.stdout[-300:]))
+            continue
+        a, b = outs[1], routs[0]
+        if fmt == 'text':
+            a, b = MT.norm_block(a), MT.norm_block(b)
+        if a != b:
+            st.violation('result-differs:gex-test:%s-after-%s:%s' % (second, first, fmt), dict(d, diff=_text_diff(a, b) if fmt == 'text' else _json_diff(a, b)))
+    st.sample({'gex_test_pairs': [list(x) for x in chunk[:2]]}, cap=3)
+
+
 # ---- every peer of the shared zoo as the second target of a run, after a target that leaves marks in the rating state
 def work_zoo_after(chunk, st):
     from props import zoo
@@ -347,6 +374,7 @@ def run(tier, seed):
     firsts = ['RSA1024', 'GEX1024', 'TERR', 'CERTSMALLCA']
     seconds = ['CLEAN', 'RSA4096', 'GEX4096', 'MARK', 'RSA1024'] if tier == 'quick' else ARCHS
     par.pmap(work_after_crash, [(a, b, f) for a in firsts for b in seconds if b != 'SSH1' for f in ('text', 'json')], stats=st, chunk=2)
+    par.pmap(work_gextest, [(a, b, sp, f) for a in GEXTEST_ARCHS for b in GEXTEST_ARCHS for sp in GEXTEST_SPECS for f in ('text', 'json')], stats=st, chunk=4)
     lines = [('ssh2_kexdb', 2, 2), ('ssh1_kexdb', 2, 2)] if tier == 'quick' else [('ssh2_kexdb', 2, 3), ('ssh1_kexdb', 2, 3), ('ssh2_kexdb', 3, 2), ('ssh1_kexdb', 3, 2)]
     par.pmap(work_lines, lines, stats=st, chunk=1)
     pairs = H.pick(list(itertools.product(ARCHS, ARCHS)), seed, 5 if tier == 'quick' else 30)
